@@ -44,7 +44,7 @@ use std::time::Duration;
 pub const META: PropMeta = PropMeta {
     id: "C17",
     level: "exploration",
-    rule: "case = payload (0..64 KiB, patterned) x SO_SNDBUF choice per direction x write/read chunk plans (plain or vectored, optional readable()/writable() await first, optional zero-length write first: one poll must return Ok(0)) x topology (writer+reader tasks on two adapters; reader adapter fed synchronously; writer adapter drained synchronously; echo task alternating READ/WRITE on one adapter driven synchronously; echo task + ping-pong client task on two adapters) x scheduling order/gap x dispatch plan (count and timeout of dispatches per round) x injected spurious re-polls x injected abandoned waiters (an adapter operation first polled under a foreign waker, then under the task's own, before any dispatch) x an optional rejected second adapt_io on the fd of a live adapter before the session starts x blocking mode before adapt_io x adapter end (drop | into_inner; inside the task | after the tasks | after the loop was dropped). non-trivial: at least one WouldBlock on a write was observed (adapter poll_write Pending, or EAGAIN on the synchronous writer = payload larger than the send buffer) or an adapter switched its awaited interest (READ<->WRITE) at least once. distinct: by fingerprint of the normalised case. sub-check hist: the history machine with an adapter-heavy profile, the monitor's adapter rules judged for C17",
+    rule: "case = payload (0..64 KiB, patterned) x SO_SNDBUF choice per direction x write/read chunk plans (plain or vectored, optional readable()/writable() await first, optional zero-length write first: one poll must return Ok(0)) x topology (writer+reader tasks on two adapters; reader adapter fed synchronously; writer adapter drained synchronously; echo task alternating READ/WRITE on one adapter driven synchronously; echo task + ping-pong client task on two adapters) x scheduling order/gap x dispatch plan (count and timeout of dispatches per round) x injected spurious re-polls x injected abandoned waiters (an adapter operation first polled under a foreign waker, then under the task's own, before any dispatch) x an optional rejected second adapt_io on the fd of a live adapter before the session starts x blocking mode before adapt_io x adapter end (drop | into_inner; inside the task | after the tasks | after the loop was dropped). non-trivial: at least one WouldBlock on a write was observed (adapter poll_write Pending, or EAGAIN on the synchronous writer = payload larger than the send buffer) or an adapter switched its awaited interest (READ<->WRITE) at least once. distinct: by fingerprint of the normalised case. sub-check hist: the history machine with an adapter-heavy profile, the monitor's adapter rules judged for C17; (owned) enumerated: an adapter owned by the callback of a timer / ping source that is removed with LoopHandle::remove outside a dispatch, from another source's callback, or leaves on its own, fd blocking / non-blocking before: no panic, former mode restored, fd out of the poller",
     assumptions: &[
         "AF_UNIX SOCK_STREAM socketpair: poll(2) and epoll share the socket's poll function, so poll(2) readiness is the ground truth for what epoll must report after a one-shot re-arm",
         "a dispatch whose poller reports the executor's ping runs the woken task; hence two dispatches bound the distance from 'fd ready + interest armed' to 'task polled'",
@@ -1641,8 +1641,139 @@ fn low_fd(ctx: &CheckCtx) -> Option<Found> {
     None
 }
 
+// ---------------------------------------------------------------------------------------------
+// an adapter owned by the callback of an event source of the same loop: however that source goes away (removed through
+// the handle outside a dispatch, removed from another source's callback, leaving on its own), the adapter's Drop runs
+// inside calloop and must still restore the blocking mode and take the fd out of the poller, without panicking.
+
+#[derive(Serialize, Deserialize, Debug, Clone, Hash, PartialEq, Eq)]
+pub struct OwnedCase {
+    /// the owning source: 0 = timer, 1 = ping source
+    pub owner: u8,
+    /// 0 = LoopHandle::remove outside a dispatch, 1 = LoopHandle::remove from another source's callback,
+    /// 2 = the owner leaves on its own (timer: TimeoutAction::Drop; ping: last handle dropped)
+    pub how: u8,
+    pub was_nonblocking: bool,
+}
+
+pub fn run_owned(c: &OwnedCase) -> CaseOutcome {
+    use std::os::unix::io::{AsRawFd, FromRawFd};
+    let mut info = CaseInfo { fingerprint: fingerprint(c), nontrivial: !c.was_nonblocking, ..CaseInfo::default() };
+    info.classes.push("adapter_owned_by_a_source_callback");
+    let (a, b) = kernel::socketpair();
+    kernel::set_nonblocking(a, c.was_nonblocking);
+    // the adapter gets a duplicate: O_NONBLOCK lives in the shared open file description and stays observable through
+    // `a` after the adapter closed its descriptor; a registration left in the poller would stay visible too
+    let d = kernel::dup(a);
+    let what = format!(
+        "adapter owned by the callback of a {} that {} (fd {} before)",
+        if c.owner == 0 { "timer" } else { "ping source" },
+        match c.how {
+            0 => "is removed with LoopHandle::remove outside a dispatch",
+            1 => "is removed with LoopHandle::remove from another source's callback",
+            _ => "leaves the loop on its own",
+        },
+        if c.was_nonblocking { "non-blocking" } else { "blocking" }
+    );
+    let v = |detail: String| Some(Violation::new("C17.flags", format!("{what}: {detail}")).with_sig("C17.flags/owned"));
+    let res = std::panic::catch_unwind(std::panic::AssertUnwindSafe(|| -> Option<Violation> {
+        let mut el: EventLoop<'static, ()> = EventLoop::try_new().expect("event loop");
+        let epfd = el.as_raw_fd();
+        let handle = el.handle();
+        let io = match handle.adapt_io(unsafe { std::os::fd::OwnedFd::from_raw_fd(d) }) {
+            Ok(io) => io,
+            Err(e) => return v(format!("adapt_io failed: {e}")),
+        };
+        if !kernel::is_nonblocking(a) {
+            return v("O_NONBLOCK is clear while the adapter lives".into());
+        }
+        let mut ping_handle = None;
+        let token = if c.owner == 0 {
+            let t = if c.how == 2 { calloop::timer::Timer::immediate() } else { calloop::timer::Timer::from_duration(Duration::from_secs(3600)) };
+            handle
+                .insert_source(t, move |_, _, _| {
+                    let _ = &io;
+                    calloop::timer::TimeoutAction::Drop
+                })
+                .expect("insert timer")
+        } else {
+            let (p, src) = calloop::ping::make_ping().expect("ping");
+            ping_handle = Some(p);
+            handle
+                .insert_source(src, move |_, _, _| {
+                    let _ = &io;
+                })
+                .expect("insert ping")
+        };
+        match c.how {
+            0 => handle.remove(token),
+            1 => {
+                let h2 = handle.clone();
+                handle
+                    .insert_source(calloop::timer::Timer::immediate(), move |_, _, _| {
+                        h2.remove(token);
+                        calloop::timer::TimeoutAction::Drop
+                    })
+                    .expect("insert timer");
+                if let Err(e) = el.dispatch(Some(Duration::ZERO), &mut ()) {
+                    return v(format!("dispatch failed: {e}"));
+                }
+            }
+            _ => {
+                drop(ping_handle.take());
+                for _ in 0..2 {
+                    if let Err(e) = el.dispatch(Some(Duration::ZERO), &mut ()) {
+                        return v(format!("dispatch failed: {e}"));
+                    }
+                }
+            }
+        }
+        drop(ping_handle);
+        if kernel::is_nonblocking(a) != c.was_nonblocking {
+            return v(format!("after the source (and the adapter with it) is gone O_NONBLOCK is {}, it was {} before adapt_io", kernel::is_nonblocking(a), c.was_nonblocking));
+        }
+        if kernel::epoll_table(epfd).iter().any(|e| e.tfd == d) {
+            return v("after the source (and the adapter with it) is gone the descriptor is still registered with the poller".into());
+        }
+        None
+    }));
+    let viol = match res {
+        Ok(v) => v,
+        Err(p) => {
+            let msg = p.downcast_ref::<String>().cloned().or_else(|| p.downcast_ref::<&str>().map(|s| s.to_string())).unwrap_or_else(|| "?".into());
+            let r = v(format!("panic inside calloop: {msg}; O_NONBLOCK is now {}", kernel::is_nonblocking(a)));
+            r
+        }
+    };
+    kernel::close(a);
+    kernel::close(b);
+    (info, viol)
+}
+
+fn owned(ctx: &CheckCtx) -> Option<Found> {
+    if let Some(f) = ctx.run_replays::<OwnedCase, _>("owned", run_owned) {
+        return Some(f);
+    }
+    for owner in 0u8..2 {
+        for how in 0u8..3 {
+            for was_nonblocking in [false, true] {
+                let c = OwnedCase { owner, how, was_nonblocking };
+                let (info, v) = run_owned(&c);
+                ctx.col.record(&info, || serde_json::to_value(&c).unwrap());
+                if let Some(v) = v {
+                    return Some(Found { sub: "owned".into(), violation: v, case: serde_json::to_value(&c).unwrap(), replay_path: None });
+                }
+            }
+        }
+    }
+    None
+}
+
 pub fn check(ctx: &CheckCtx) -> Option<Found> {
     if let Some(f) = low_fd(ctx) {
+        return Some(f);
+    }
+    if let Some(f) = owned(ctx) {
         return Some(f);
     }
     if let Some(f) = ctx.run_replays::<crate::hist::ops::HistCase, _>("hist", |c| crate::props::histprops::run_case_for(&HIST, c)) {
@@ -1767,6 +1898,10 @@ pub fn replay(_ctx: &CheckCtx, sub: &str, case: serde_json::Value) -> Result<Opt
     if sub == "low_fd" {
         let c: LowFdCase = serde_json::from_value(case).map_err(|e| e.to_string())?;
         return Ok(run_low_fd(&c).1);
+    }
+    if sub == "owned" {
+        let c: OwnedCase = serde_json::from_value(case).map_err(|e| e.to_string())?;
+        return Ok(run_owned(&c).1);
     }
     let c: Case = serde_json::from_value(case).map_err(|e| e.to_string())?;
     Ok(run_case(&c).1)
